@@ -165,6 +165,7 @@ def apply_op(env, c, op, arg, sym, angles, tag, canary=False):
             out = c.inverse()
         except AttributeError:          # documented: non-invertible gate / non-numeric parameter
             unchanged()
+            FALLBACK.append(1)
             return c
         check_invariant(env, out, L, width=w0)
         unchanged()
@@ -201,6 +202,8 @@ def apply_op(env, c, op, arg, sym, angles, tag, canary=False):
             check_invariant(env, pc, f"{L}[part {i}]", width=(nu if op == "split" else hi_plus_1(pc)))
         env.check_same(sum(p.size for p in parts), c.size, f"{L}: every gate goes to exactly one part")
         unchanged()
+        if not parts:
+            FALLBACK.append(1)
         return parts[0] if parts else c
     if op.split(":")[0] in SIMPL:
         name, form = op.split(":")
@@ -220,6 +223,7 @@ def apply_op(env, c, op, arg, sym, angles, tag, canary=False):
             env.check_true(has_meas and name in ("remove_redundant_gates", "simplify"), f"{L}: raises only for non-invertible gates")
             unchanged()
             check_invariant(env, c, f"{L} (after AttributeError)", width=w0)
+            FALLBACK.append(1)
             return c
         if name in ("remove_small_rotations", "remove_redundant_gates"):
             check_invariant(env, out, L, width=(hi_plus_1(out) if arg else w0))
@@ -254,13 +258,39 @@ def apply_op(env, c, op, arg, sym, angles, tag, canary=False):
     raise ValueError(op)
 
 
+OUT_OF_PLACE = ("add", "stack", "mul", "copy", "inverse", "split", "split_notrim")
+FALLBACK = []       # apply_op hands back the receiver itself when the operation produced nothing / legitimately raised
+
+
+def check_result_independent(env, c, out, L):
+    """an operation that only READS circuit c hands back a circuit that can be modified without reaching c: building on the
+    result (add_gate, re-indexing, changing a gate of the result) is a later, separate step of the history"""
+    from tangelo.linq import Gate
+    before = CU.snapshot(c)
+    try:
+        out.add_gate(Gate("H", 0))
+        for g in out._gates[:2]:
+            g.target = [q + 1 for q in g.target] if not g.control else g.target
+        if out._gates and isinstance(out._gates[0].parameter, (int, float)) and not isinstance(out._gates[0].parameter, bool):
+            out._gates[0].parameter = 0.125
+    except Exception:       # noqa  the result may legitimately refuse the extra gate (fixed width); nothing to compare then
+        pass
+    CU.check_unchanged(env, before, c, f"{L}: modifying the circuit RETURNED by this read-only operation leaves the circuit it was applied to unchanged")
+
+
 def h_step(env, spec, n_qubits, op, arg=None, op2=None, arg2=None, sym=False, canary=False):
     c, angles = mk_circuit(env, spec, n_qubits, sym)
     used = CU.ref_metadata([CU.gate_tuple(g) for g in list(c)])["width"]
     check_invariant(env, c, "constructor", width=max(used, n_qubits or 0), canary=(canary == "ref"))
+    del FALLBACK[:]
     out = apply_op(env, c, op, arg, sym, angles, "", canary=(canary == "readonly"))
     if op2 is not None:
-        apply_op(env, out, op2, arg2, sym, angles, f"{op} -> ")
+        del FALLBACK[:]
+        out2 = apply_op(env, out, op2, arg2, sym, angles, f"{op} -> ")
+        if (op2 in OUT_OF_PLACE or op2.endswith(":function")) and not canary and not FALLBACK:
+            check_result_independent(env, out, out2, f"{op} -> {op2}")
+    elif (op in OUT_OF_PLACE or op.endswith(":function")) and not canary and not FALLBACK:
+        check_result_independent(env, c, out, op)
 
 
 # ------------------------------------------------------------------ index validation (enumeration)
